@@ -25,14 +25,37 @@ class CenteredFieldType(FieldType):
         return chunks, ALIGN_CENTER
 
 
+class TaggedFieldType(FieldType):
+    """a user-defined field type with format modifiers of its own: any text is accepted as a modifier (slashes
+    and percent signs included, as in a date pattern) and is shown behind the value"""
+    ALIGN = None
+
+    def make_desired_cell_ch_chunks(self, value, fmt_modifier, field_palette):
+        chunks, align = super().make_desired_cell_ch_chunks(value, None, field_palette)
+        if fmt_modifier is not None:
+            chunks = chunks + [field_palette.text("~" + fmt_modifier)]
+        return chunks, self.ALIGN if self.ALIGN is not None else align
+
+    def is_fmt_modifier_ok(self, fmt_modifier):
+        return True, ""
+
+
+class TaggedCenteredFieldType(TaggedFieldType):
+    ALIGN = ALIGN_CENTER
+
+
+D_MODIFIERS = ['u', 'p/q', '%d/%m/%y', 'x', 'full']
+
+
 def mk_field_types(centered=None, bounded=None):
     """bounded = (field, lo, hi): the width bounds are set on the field type, not in the column description"""
-    ft = {'st': PPEnumFieldType(dict(ENUM_DEF))}
+    ft = {'st': PPEnumFieldType(dict(ENUM_DEF)), 'd': TaggedFieldType()}
     if centered:
-        ft[centered] = CenteredFieldType()
+        ft[centered] = CenteredFieldType() if centered != 'd' else TaggedCenteredFieldType()
     if bounded:
         field, lo, hi = bounded
-        ft[field] = CenteredFieldType(lo, hi) if field == centered else FieldType(lo, hi)
+        ft[field] = (TaggedCenteredFieldType if field == centered else TaggedFieldType)(lo, hi) if field == 'd' else \
+            CenteredFieldType(lo, hi) if field == centered else FieldType(lo, hi)
     return ft
 
 
@@ -63,6 +86,9 @@ def gen_col(rng, allow_hidden=False):
     mod = None
     if f == 'st' and rng.random() < 0.7:
         mod = rng.choice(['full', 'val', 'name'])
+        spec += "/" + mod
+    if f == 'd' and rng.random() < 0.35:
+        mod = rng.choice(D_MODIFIERS)
         spec += "/" + mod
     brk = rng.random() < 0.25
     if brk:
@@ -124,6 +150,8 @@ def cell_text(rec, col):
     v = rec[FIELDS.index(col['field'])]
     if col['field'] == 'st':
         return enum_text(v, col['mod'])
+    if col['field'] == 'd' and col.get('mod'):
+        return str(v) + "~" + col['mod']
     return str(v)
 
 
